@@ -183,6 +183,26 @@ func runCase(run *evid.Run, idx int) caseOut {
 		c.lvKey[i] = []string{"url", "url", "global"}[r.Intn(3)]
 	}
 	c.files = []string{"a.dat", "b.dat", "sub/c.dat", "n.txt", "m.txt", "x.bin", "plain.md"}
+	if c.flavor == "plain" && idx%8 == 6 {
+		// dense: 10-40 extra lockable files (4 of 40 cases)
+		c.dense = true
+		n := 10 + r.Intn(31)
+		for i := 0; i < n; i++ {
+			ext := ".txt"
+			if i%4 == 3 {
+				ext = ".dat"
+			}
+			f := fmt.Sprintf("d%02d%s", i, ext)
+			if i%5 == 4 {
+				f = "sub/" + f
+			}
+			c.denseFiles = append(c.denseFiles, f)
+		}
+		c.files = append(c.files, c.denseFiles...)
+		if c.roHow == "false" {
+			c.roHow, c.readonly = "true", true
+		}
+	}
 	switch c.flavor {
 	case "odd-path":
 		// names that `git status --porcelain` / `git diff-tree` print C-quoted
@@ -230,6 +250,9 @@ func runCase(run *evid.Run, idx int) caseOut {
 	if r.Intn(2) == 0 {
 		c.seqLen = 1 + r.Intn(16)
 	}
+	if c.dense && c.seqLen < 12 {
+		c.seqLen += 10
+	}
 	if c.flavor == "overlap" {
 		if c.seqLen < 9 {
 			c.seqLen += 9
@@ -257,6 +280,9 @@ func runCase(run *evid.Run, idx int) caseOut {
 	}
 	if c.ovShape != "" {
 		fl += ":" + c.ovShape
+	}
+	if c.dense {
+		fl += "+dense"
 	}
 	class := fmt.Sprintf("%s/lv=%s,%s/ro=%s/page=%d/len=%s", c.flavor, c.lv[0], c.lv[1], map[bool]string{true: "on", false: "off"}[c.readonly], c.page, lenBucket(c.seqLen))
 	class = strings.Replace(class, c.flavor+"/", fl+"/", 1)
@@ -346,7 +372,7 @@ func (c *cse) count(name string, n int64) {
 func main() {
 	run := evid.New("C16", "exploration")
 	defer sbx.RemoveBase()
-	run.Rule = "seeded sequences (length uniform in 1..30, a scripted 3-5 command opening in 3 of 5 cases) over {lock p, unlock p, unlock --id, unlock --force [p|--id], locks [--path P|--id ID|--limit N][--json], locks --verify [--limit N|--path P|--id ID][--json], locks --local [--path|--id|--limit N][--json], locks [--verify] --cached [--json] (+ the refused combinations --cached with --limit/--path/--id) with N from {1, 2, locks-1, locks, more} against page sizes {0,1,2} (page <, =, > N), checkout <branch>, checkout HEAD -- <files>, edit(+add), commit, merge/pull, push [one|both branches]} executed by two users (user switches with p=0.4 per step) on two clones of one bare remote against one fake LFS server; paths: lockable LFS (*.dat), lockable non-LFS (*.txt), non-lockable LFS (*.bin), plain, plus lockable files that exist on one branch only (only-main.dat/.txt, only-side.dat) and files removed from the work tree without committing (rm), so that lock/unlock (by path, --id, --force) also hit files ABSENT from the work tree, followed by the checkout/merge that brings them back; coordinates per case: flavor {overlap (1 case in 8: after a few ordinary commands two git-lfs processes of the same user overlap deterministically in one clone — the server hook computes/applies the request of process A, holds its response, process B runs to completion, A is released — in the shapes verify+lock, lock+verify, unlock+verify, lock+lock|unlock; expected cache = both effects = server's own-lock table), plain, verify5xx (one 5xx on a verifiable listing = the single known trigger), verify-unimpl (404/501 on locks/verify), locks-unimpl (404/501 on every lock endpoint), odd-path (two extra lockable files whose name contains a space, a double quote, non-ASCII letters or a tab), subdir-cwd (lock/unlock of sub/… issued from inside sub/), dup-content (edits may copy another file's content)}; in every 4th case the pushes run the race-instrumented binary and data-race reports touching commands.lockVerifier count as violations x locksverify(alice,bob) in {unset,true,false} via lfs.<url>.locksverify or lfs.locksverify x lfs.setlockablereadonly {unset,true,false} x server page size {0,1,2}; other answers arise from the sequence (409 on a held path, 403 on a foreign unlock, 404 on a stale id) or from scripted 500/502/503 on lock create/delete/list. Class = (flavor, locksverify pair, readonly on/off, page size, length bucket). Oracles after every command: push verdict, write bits of the files whose flags the command fixes, `locks --local --json` (ids and paths) of the acting user == sequence-defined expected cache (the other user's cache is compared at every change of the acting user and at the end of the sequence), `locks [--verify] --cached --json` == last unambiguous remote listing, unlock guard, no Go panic; in verify5xx cases the fault hits either the first verify request or (paginated server) every page after the first."
+	run.Rule = "seeded sequences (length uniform in 1..30, a scripted 3-5 command opening in 3 of 5 cases) over {lock p, unlock p, unlock --id, unlock --force [p|--id], locks [--path P|--id ID|--limit N][--json], locks --verify [--limit N|--path P|--id ID][--json], locks --local [--path|--id|--limit N][--json], locks [--verify] --cached [--json] (+ the refused combinations --cached with --limit/--path/--id) with N from {1, 2, locks-1, locks, more} against page sizes {0,1,2} (page <, =, > N), checkout <branch>, checkout HEAD -- <files>, edit(+add), commit, merge/pull, push [one|both branches]} executed by two users (user switches with p=0.4 per step) on two clones of one bare remote against one fake LFS server; paths: lockable LFS (*.dat), lockable non-LFS (*.txt), non-lockable LFS (*.bin), plain, plus lockable files that exist on one branch only (only-main.dat/.txt, only-side.dat) and files removed from the work tree without committing (rm), so that lock/unlock (by path, --id, --force) also hit files ABSENT from the work tree, followed by the checkout/merge that brings them back; coordinates per case: dense (4 of 40 cases: 10-40 extra lockable files; the other user rewrites many of them and pushes, this user removes one or two others from the work tree WITHOUT committing, then pull/merge and `git checkout HEAD -- <files>` run the repository-scanning hooks while tracked lockable files are missing; every lockable file the command rewrote is judged, trigger hook-with-missing-lockable-file); flavor {overlap (1 case in 8: after a few ordinary commands two git-lfs processes of the same user overlap deterministically in one clone — the server hook computes/applies the request of process A, holds its response, process B runs to completion, A is released — in the shapes verify+lock, lock+verify, unlock+verify, lock+lock|unlock; expected cache = both effects = server's own-lock table), plain, verify5xx (one 5xx on a verifiable listing = the single known trigger), verify-unimpl (404/501 on locks/verify), locks-unimpl (404/501 on every lock endpoint), odd-path (two extra lockable files whose name contains a space, a double quote, non-ASCII letters or a tab), subdir-cwd (lock/unlock of sub/… issued from inside sub/), dup-content (edits may copy another file's content)}; in every 4th case the pushes run the race-instrumented binary and data-race reports touching commands.lockVerifier count as violations x locksverify(alice,bob) in {unset,true,false} via lfs.<url>.locksverify or lfs.locksverify x lfs.setlockablereadonly {unset,true,false} x server page size {0,1,2}; other answers arise from the sequence (409 on a held path, 403 on a foreign unlock, 404 on a stale id) or from scripted 500/502/503 on lock create/delete/list. Class = (flavor, locksverify pair, readonly on/off, page size, length bucket). Oracles after every command: push verdict, write bits of the files whose flags the command fixes, `locks --local --json` (ids and paths) of the acting user == sequence-defined expected cache (the other user's cache is compared at every change of the acting user and at the end of the sequence), `locks [--verify] --cached --json` == last unambiguous remote listing, unlock guard, no Go panic; in verify5xx cases the fault hits either the first verify request or (paginated server) every page after the first."
 	run.Assumptions = []string{
 		"ownership ground truth = lock table of the fake server; commands of the two users never overlap in time",
 		"expected cache of a user: + lock granted (201), - unlock confirmed (200), replaced by the server's ours list at every successful UNLIMITED `git lfs locks --verify`; a listing cut off by --limit (N <= number of locks) or refused because of a filter leaves the expectation unchanged, a limited listing whose limit was not reached may or may not replace it; after a push whose verify requests all succeeded both the unchanged and the replaced set are accepted (the statement does not say that a push refreshes the cache)",
